@@ -102,15 +102,15 @@ CHECKS["C20"] = dict(
 HCOBS_COMMON = "Oracles on every run: output equals an independent canonical reference encoder (literal limits 252 / 64008 / radix 253, not imported from hcobs), no FE FD anywhere in drained ++ finished output, the real decoder returns the input, decoder verdict equals a reference decoder, bytes consumable after each call form a prefix of the final output, drain return values are exact, encoder lag <= one arena chunk + 64008 + 2 and decoder lag zero, every exposed slice lies in a live chunk or a caller buffer, no arena leak."
 CHECKS["C01"] = dict(
     engine="hcobs_mc",
-    category="exploration",
+    category="model_checking",
     design="DESIGN.md section 4, C01",
     technique="bounded-exhaustive enumeration of inputs x segmentations x input-method masks on the real Encoder and Decoder (tiny limits via hook H2, production limits via the public API), reference codec as oracle",
-    text="Tiny limits (1,1), (2,3), (3,5): every input over {FE, FD, 00, FF, FC} up to length 5 (quick) / 6 (thorough) and over 4 letters up to 6 / 8, every segmentation into <= 3 pieces with all 27 borrow/copy/anchored masks plus read, and the canonical stream fed to the decoder under every 3-way segmentation x 4 methods. Production limits: pre . x^k . h . p . x^t with k at every distance within 3 / 8 of 0, 64, 256, 4096 and the chunk limit (252 after nothing, 64008 after a full first chunk or a stuff sequence), every subset of cuts at part boundaries and inside p, 8 method masks, decoded back under cuts around every header; alignment family x^a . q . x^b for all q over {FE, FD, FF, 00} up to length 4. " + HCOBS_COMMON,
+    text="Tiny limits (1,1), (2,3), (3,5): every input over {FE, FD, 00, FF, FC} up to length 5 (quick) / 6 (thorough) and over 4 letters up to 6 / 8, every segmentation into <= 3 pieces with all 27 borrow/copy/anchored masks plus read, and the canonical stream fed to the decoder under every 3-way segmentation x 4 methods. Production limits: pre . x^k . h . p . x^t with k at every distance within 3 / 8 of 0, 64, 256, 4096 and the chunk limit (252 after nothing, 64008 after a full first chunk or a stuff sequence), every subset of cuts at part boundaries and inside p, 8 method masks, decoded back under cuts around every header; alignment family x^a . q . x^b for all q over {FE, FD, FF, 00} up to length 4. State-space closure at the tiny limits: a BFS over the encoder's (chunk limit, bytes in chunk, held-back flag) and the decoder's state reaches a fix-point, and from every reachable state every next piece of length 1..3 and follow-up are fed as separate calls by every method and compared in full, so every reachable (state, next piece) transition at these limits is exercised. " + HCOBS_COMMON,
     note="Strings longer than the bounds with several interacting boundaries at production limits are covered only through the scaled-down limits; bytes outside the alphabets matter only through comparison with FE / FD.",
 )
 CHECKS["C02"] = dict(
     engine="hcobs_mc",
-    category="exploration",
+    category="model_checking",
     design="DESIGN.md section 4, C02",
     technique="bounded-exhaustive enumeration of inputs x segmentations x method masks x drain schedules on the real Encoder; stuff-freedom, split-independence (equality with a single-call reference) and length bound checked on every output; exhaustive find_stuff_sequence",
     text="Same input families as C01 with, in addition, every 2-way segmentation x all 36 pairs of drain operations (nothing, consume 1 / all slices, advance 1 / all bytes, read 2 bytes) so that the early/late split of the output is enumerated; every output is compared with the single-call canonical encoding (split-, method- and drain-independence), searched for FE FD, and checked against len + 1 + 2*ceil(len/64008). hcobs::find_stuff_sequence is compared with a two-line reference on all strings over 5 letters up to length 9 / 10 and at every alignment 0..24. " + HCOBS_COMMON,
@@ -118,7 +118,7 @@ CHECKS["C02"] = dict(
 )
 CHECKS["C07"] = dict(
     engine="hcobs_mc",
-    category="exploration",
+    category="model_checking",
     design="DESIGN.md section 4, C07",
     technique="bounded-exhaustive enumeration: encoder outputs vs an independent canonical encoder; decoder accept set on ALL byte strings over a 10-letter alphabet (tiny limits) and on the whole 1-byte / 2-byte header space (production limits) vs a reference decoder",
     text="Encoder: every output of the C01 families is compared byte-for-byte with a reference encoder that hard-codes 252 / 64008 / 253. Decoder, tiny limits: ALL byte strings over {0,1,2,3,5,6,FC,FD,FE,FF} up to length 6 (quick) / 7 (thorough), whole, under every 2-way split x {borrow, copy} and every 3-way split: accept/reject and output must equal the reference decoder and must not depend on the segmentation. Decoder, production limits: all 256 first-header bytes and, after an empty first chunk, all 65 536 second-header byte pairs, each with the body a lenient reading would expect (short by one, exact, exact + terminators), whole and split inside / after the header; truncations of a 3-chunk message around every header; out-of-radix header bytes after long borrowed chunks. " + HCOBS_COMMON,
